@@ -1,16 +1,81 @@
 use futures_buffered::*;
-use std::cell::Cell; use std::future::Future; use std::pin::Pin; use std::rc::Rc; use std::sync::Arc;
+use futures_core::Stream;
+use std::cell::Cell;
+use std::future::Future;
+use std::pin::Pin;
+use std::rc::Rc;
+use std::sync::Arc;
 use std::task::{Context, Poll, Wake, Waker};
-struct Noop; impl Wake for Noop { fn wake(self: Arc<Self>) {} }
-struct Fl(Rc<Cell<bool>>, Option<Result<String, i32>>);
-impl Future for Fl { type Output = Result<String,i32>; fn poll(mut self: Pin<&mut Self>, cx: &mut Context<'_>) -> Poll<Self::Output> { if self.0.get() { Poll::Ready(self.1.take().unwrap()) } else { cx.waker().wake_by_ref(); Poll::Pending } } }
+
+struct Noop;
+impl Wake for Noop { fn wake(self: Arc<Self>) {} }
+
+// future: ready iff flag set
+struct Fl { ready: Rc<Cell<bool>>, out: Option<Tok> }
+struct Tok(Rc<Cell<i32>>, i32);
+impl Drop for Tok { fn drop(&mut self) { self.0.set(self.0.get() + 1); } }
+impl Future for Fl { type Output = Tok; fn poll(mut self: Pin<&mut Self>, _cx: &mut Context<'_>) -> Poll<Tok> { if self.ready.get() { Poll::Ready(self.out.take().unwrap()) } else { Poll::Pending } } }
+struct FlR { ready: Rc<Cell<bool>>, out: Option<Result<Tok, i32>> }
+impl Future for FlR { type Output = Result<Tok,i32>; fn poll(mut self: Pin<&mut Self>, _cx: &mut Context<'_>) -> Poll<Self::Output> { if self.ready.get() { Poll::Ready(self.out.take().unwrap()) } else { Poll::Pending } } }
+
+struct Up<I: Iterator>(I, usize);
+impl<I: Iterator + Unpin> Stream for Up<I> { type Item = I::Item; fn poll_next(mut self: Pin<&mut Self>, _cx: &mut Context<'_>) -> Poll<Option<I::Item>> { self.1 += 1; Poll::Ready(self.0.next()) } }
+
+struct Rep(usize, bool); // infinite source / or always pending
+impl Stream for Rep { type Item = usize; fn poll_next(self: Pin<&mut Self>, _cx: &mut Context<'_>) -> Poll<Option<usize>> { if self.1 { Poll::Ready(Some(self.0)) } else { Poll::Pending } } }
+
 fn main() {
-    let w = Waker::from(Arc::new(Noop)); let mut cx = Context::from_waker(&w);
-    let now = Rc::new(Cell::new(true)); let later = Rc::new(Cell::new(false));
-    let mut j = Box::pin(try_join_all(vec![Fl(now.clone(), Some(Err(7))), Fl(later.clone(), Some(Ok("late".to_string())))]));
-    let r1 = j.as_mut().poll(&mut cx);
-    println!("first poll: {:?}", r1);
-    later.set(true);
-    let r2 = j.as_mut().poll(&mut cx);
-    match r2 { Poll::Ready(Ok(v)) => { println!("second poll: Ok(len={})", v.len()); println!("elem0 len = {}", v[0].len()); } other => println!("second poll: {:?}", other) }
+    let w = Waker::from(Arc::new(Noop));
+    let mut cx = Context::from_waker(&w);
+    let drops = Rc::new(Cell::new(0));
+
+    // C16: buffered_ordered(2), head never completes, rest ready
+    {
+        let never = Rc::new(Cell::new(false)); let yes = Rc::new(Cell::new(true));
+        let d = drops.clone(); let (n2, y2) = (never.clone(), yes.clone());
+        let mut pulled = 0usize;
+        let it = (0..).map(move |i| { Fl { ready: if i == 0 { n2.clone() } else { y2.clone() }, out: Some(Tok(d.clone(), i)) } });
+        let up = Up(it, 0);
+        let mut s = Box::pin(up.buffered_ordered(2));
+        for k in 0..5 { let r = s.as_mut().poll_next(&mut cx); pulled = k; let _ = r.is_pending(); println!("C16 poll {k}: pending={} size_hint={:?}", r.is_pending(), s.size_hint()); }
+        let _ = pulled;
+    }
+    // C17: try_buffered_unordered size_hint after upstream end with in-flight
+    {
+        let never = Rc::new(Cell::new(false));
+        let d = drops.clone();
+        let v: Vec<Result<FlR, i32>> = vec![Ok(FlR { ready: never.clone(), out: Some(Ok(Tok(d.clone(), 7))) })];
+        let mut s = Box::pin(Up(v.into_iter(), 0).try_buffered_unordered(2));
+        let r = s.as_mut().poll_next(&mut cx);
+        println!("C17 after poll pending={} size_hint={:?} (1 item still to come)", r.is_pending(), s.size_hint());
+        never.set(true);
+        let r = s.as_mut().poll_next(&mut cx);
+        println!("C17 then yields item: {}", matches!(r, Poll::Ready(Some(Ok(_)))));
+    }
+    // C06: join_all cancelled after one output
+    {
+        let d = Rc::new(Cell::new(0));
+        let yes = Rc::new(Cell::new(true)); let never = Rc::new(Cell::new(false));
+        let mut j = Box::pin(join_all(vec![Fl { ready: yes.clone(), out: Some(Tok(d.clone(), 0)) }, Fl { ready: never.clone(), out: Some(Tok(d.clone(), 1)) }]));
+        let r = j.as_mut().poll(&mut cx); println!("C06 join_all pending={}", r.is_pending());
+        drop(j);
+        println!("C06 tokens dropped after cancel: {} of 2", d.get());
+    }
+    // C13: MergeUnbounded starvation across groups
+    {
+        let mut m = MergeUnbounded::new();
+        m.push(Rep(0, true));
+        for i in 1..32 { m.push(Rep(i, false)); }
+        m.push(Rep(32, true)); // lands in group 1
+        let mut seen32 = false;
+        for _ in 0..10_000 { if let Poll::Ready(Some(x)) = Pin::new(&mut m).poll_next(&mut cx) { if x == 32 { seen32 = true; break; } } }
+        println!("C13 source 32 ever yielded in 10000 polls: {seen32}");
+    }
+    // C10: for_each_concurrent(0)
+    {
+        let cnt = Rc::new(Cell::new(0)); let c2 = cnt.clone();
+        let mut f = Box::pin(Up(0..3, 0).for_each_concurrent(0, move |_x| { c2.set(c2.get() + 1); std::future::ready(()) }));
+        let r = f.as_mut().poll(&mut cx);
+        println!("C10 for_each_concurrent(0): pending={} closure calls={}", r.is_pending(), cnt.get());
+    }
 }
